@@ -171,7 +171,7 @@ def run_harness(exe, script_text, trace_path, timeout=120):
     ensure(os.path.dirname(trace_path))
     try:
         r = subprocess.run([exe, "-", trace_path], input=script_text, universal_newlines=True, stdout=subprocess.PIPE,
-                           stderr=subprocess.STDOUT, timeout=timeout, env=dict(os.environ, VH_ALARM=str(max(5, timeout - 5))))
+                           stderr=subprocess.STDOUT, timeout=timeout * 30 + 60, env=dict(os.environ, VH_ALARM=str(max(5, timeout - 5))))   # (VH_ALARM: seconds of processor time)
         return r.returncode, r.stdout
     except subprocess.TimeoutExpired:
         return -9, "timeout"
